@@ -2,12 +2,23 @@
 
 package props
 
-import "github.com/pion/rtcp/verifrt"
+import (
+	"github.com/pion/rtcp/verifrt"
+
+	"verif/sched"
+)
 
 func init() {
 	InstrBuild = true
 	stepsGet = func() int64 { return verifrt.Steps }
 	stepsSetBudget = func(n int64) { verifrt.Steps = 0; verifrt.Budget = n }
-	setHook = func(f func()) { verifrt.Hook = f }
+	setHook = func(f func()) {
+		verifrt.Hook = f
+		if f != nil {
+			verifrt.BlockHook = sched.Blocked
+		} else {
+			verifrt.BlockHook = nil
+		}
+	}
 	CoverageGet = func() []uint8 { return verifrt.Hits[:] }
 }
